@@ -70,3 +70,62 @@ Theorem v2_defrag_preserves_lookup_not_larger_inv :
       (forall f', r = Some f' -> v2_Inv f' /\ blen f' = B2 + v2_live_sum f /\ blen f' <= blen f) /\
       (r = None -> v2_live_sum f = 0).
 Proof. exact v2_defrag_correct. Qed.
+
+(* ---- format v1 (st = (.bundlx index file, .bundle data file); c, r = first column / row of the bundle, they
+   only appear in the data header).  `v1_Inv` = GInv (as for v2, with the data file) and v1_extra: all bytes
+   < 256, the index keeps its length, every non-zero index offset names a complete record (4-byte size and that
+   many bytes) inside the data file behind the header, header bundle-size field = file length, header tile
+   counter <= file length, header largest-tile field >= every live record.  Guards: tile < 2^32 bytes (two32),
+   data file < 2^40 bytes. *)
+
+Theorem v1_inv_reachable :
+  forall c r (ops : list bop),
+    Forall (op_ok two32) ops -> B1 + ops_bytes ops < two40 ->
+    exists st, v1_run c r ops = Some st /\ v1_Inv st /\ v1_dlen st = B1 + ops_bytes ops.
+Proof. exact v1_history_inv. Qed.
+
+(* each index entry is empty (offset 0), or points at a complete record inside the data file: a zero-size record
+   (initial entries point into the zero area; an empty tile was stored) which reads as missing, or a record
+   behind the fixed part whose bytes load_tile returns *)
+Theorem v1_inv_means :
+  forall st x y, v1_Inv st -> 0 <= x < 128 -> 0 <= y < 128 ->
+    let offset := brd (fst st) (16 + (x * 128 + y) * 5) 5 in
+    let size := brd (snd st) offset 4 in
+    offset = 0 \/
+    (60 <= offset /\ offset + 4 + size <= blen (snd st) /\
+     (size = 0 /\ v1_load st (x, y) = RMissing \/
+      0 < size < two32 /\ B1 <= offset /\
+      v1_load st (x, y) = RData (bread (snd st) (offset + 4) (Z.to_nat size)))).
+Proof. exact v1_inv_readable. Qed.
+
+Theorem v1_inv_init_holds : forall c r, v1_Inv (v1_init c r).
+Proof. exact v1_inv_init. Qed.
+
+Theorem v1_inv_store_step :
+  forall st s d,
+    v1_Inv st -> slot_ok s -> bytes_okl d -> zlen d < two32 -> v1_dlen st + 4 + zlen d < two40 ->
+    exists st', v1_store1 st s d = Some st' /\ v1_Inv st' /\ v1_dlen st' = v1_dlen st + 4 + zlen d /\
+      v1_load st' s = (if zlen d =? 0 then RMissing else RData d) /\
+      forall s', slot_ok s' -> s' <> s -> v1_load st' s' = v1_load st s'.
+Proof. exact v1_inv_store. Qed.
+
+Theorem v1_inv_remove_step :
+  forall st s, v1_Inv st -> slot_ok s ->
+    v1_Inv (v1_remove1 st s) /\ v1_dlen (v1_remove1 st s) = v1_dlen st /\ v1_load (v1_remove1 st s) s = RMissing /\
+    forall s', slot_ok s' -> s' <> s -> v1_load (v1_remove1 st s) s' = v1_load st s'.
+Proof. exact v1_inv_remove. Qed.
+
+Theorem v1_size_estimate_exact :
+  forall st, v1_Inv st -> v1_size st = Some (B1 + v1_live_sum st, v1_dlen st).
+Proof. exact v1_size_exact. Qed.
+
+(* defragmentation: same bytes for every address, valid new files, data file exactly fixed part + live records
+   and not longer than before, index file of unchanged length *)
+Theorem v1_defrag_preserves_lookup_not_larger_inv :
+  forall c r st, v1_Inv st -> v1_dlen st < two40 ->
+    exists o, v1_defrag c r st = Some o /\
+      (forall s, slot_ok s -> g_load_opt v1st v1_load o s = v1_load st s) /\
+      (forall st', o = Some st' -> v1_Inv st' /\ v1_dlen st' = B1 + v1_live_sum st /\ v1_dlen st' <= v1_dlen st /\
+                                   blen (fst st') = blen (fst st)) /\
+      (o = None -> v1_live_sum st = 0).
+Proof. exact v1_defrag_correct. Qed.
